@@ -5,6 +5,8 @@ the working tree: a difference never alarms, it only escalates the case budget (
 import json, hashlib, os, sys
 ROOT = os.path.dirname(os.path.dirname(os.path.abspath(__file__)))
 REPO = sys.argv[1] if len(sys.argv) > 1 else "/repo"
+if not os.path.isdir(os.path.join(REPO, "src")):
+    sys.exit("usage: update_basis.py [repo]   (%s has no src/ directory)" % REPO)
 basis = {}
 for l in open(os.path.join(ROOT, "properties.jsonl")):
     p = json.loads(l)
